@@ -70,6 +70,7 @@ def run(chk: Check, ctx: Any) -> None:
         "carry; (R4) neither side reorders ops or routines; (R5) the resolver removes exactly the parameter at the table index on a copy, and "
         "locates the routine of a target with comparisons that agree with the inclusive end-offset table. String/number values are C04."
     )
+    chk.rule("C07-R6", "SsbScriptSsbDecompiler.convert and SsbScriptSsbCompiler.compile interpreted: hand-made routine sets (every parameter kind, arbitrary opcode names, unreachable ops, jumps between routines in both directions, alias routines, coroutines, targeted routines, offset gaps) and compiled program families come back op for op with equal parameters, routine table and jump targets; the input is not modified")
     chk.rule("C07-R1", "SsbScript print templates parse under the grammar; holes sit on the tokens the listener reads; kind words round-trip")
     chk.rule("C07-R2", "jump label printed last; listener: pending jump label is cleared at every argument and after every operation")
     chk.rule("C07-R3", "labels: one table for the whole file; bound to the next op; printed immediately before the op with that offset")
@@ -429,6 +430,9 @@ def run(chk: Check, ctx: Any) -> None:
                        f"`old_offset <= {ends}[routine_id - 1]`: with `<` a jump to the last op of the previous routine is attributed to the current one",
                        "moves down while the target is not behind the previous routine's last op", node=w)
     chk.floor("C07-R5", "routine search loops", n_loops, 2)
+    from .ssbs_roundtrip import ssbs_roundtrip_rule
+    ssbs_roundtrip_rule(chk, ctx, "C07-R6", getattr(ctx, "tier", "quick") == "thorough")
+
 
 
 def collector_fresh_rule(chk: Check, ctx: Any, rule: str) -> None:
